@@ -21,7 +21,7 @@ PROPS = {
     "C04": dict(sections=["st.sub", "st.sess", "st.node", "st.payout", "st.ix.node_q", "st.ix.sub_q", "st.ix.sess_q", "st.ix.pay_q", "st.now", "ev"],
                 res_ops=["B", "E"], res_kinds=["sub_cancel", "sess_end", "node_update_status", "sess_update"],
                 rule="non-trivial: a subscription or session was demoted or removed in the history"),
-    "C05": dict(sections=["st.bal", "st.dep", "ev"], res_ops=[], res_kinds=["node_subscribe", "plan_subscribe"],
+    "C05": dict(sections=["st.bal", "st.dep", "st.payout", "ev"], res_ops=[], res_kinds=["node_subscribe", "plan_subscribe"],
                 rule="non-trivial: a plan payment, hourly payout or session settlement was split"),
     "C06": dict(sections=["st.alloc"], res_ops=[], res_kinds=["sub_allocate", "sess_start"],
                 rule="non-trivial: an allocation's usage grew, or quota was shared while some holder had usage"),
